@@ -26,6 +26,7 @@ type SpecEnv struct {
 	bvars  map[string]bool
 	pos    token.Pos
 	oldNames map[string]Value
+	guards map[string]bool // text of the conjuncts of enclosing `==>` antecedents (known true here)
 }
 
 func (e *SpecEnv) with(name string, v Value) *SpecEnv {
@@ -183,7 +184,16 @@ func (x *X) specBool(env *SpecEnv, e *SpecExpr) *Term {
 func (x *X) specEval(env *SpecEnv, e *SpecExpr) Value {
 	switch e.Kind {
 	case "implies":
-		return boolVal(Implies(x.specBool(env, e.L), x.specBool(env, e.R)))
+		l := x.specBool(env, e.L)
+		// under the antecedent g, ite(g, a, b) is a: map reads `m[k]` guarded by has(m, k) lose their ite, which
+		// would otherwise keep every term around them from serving as a quantifier pattern
+		ne := *env
+		ne.guards = make(map[string]bool, len(env.guards)+2)
+		for k := range env.guards {
+			ne.guards[k] = true
+		}
+		collectConjuncts(l, ne.guards)
+		return boolVal(Implies(l, x.specBool(&ne, e.R)))
 	case "iff":
 		return boolVal(Eq(x.specBool(env, e.L), x.specBool(env, e.R)))
 	case "forall", "exists":
@@ -313,6 +323,15 @@ func (x *X) specGo(env *SpecEnv, se *SpecExpr, e ast.Expr) Value {
 	case *ast.IndexExpr:
 		base := x.specGo(env, se, n.X)
 		idx := x.specGo(env, se, n.Index)
+		if mt, ok := base.T.Underlying().(*types.Map); ok && len(env.guards) > 0 && base.C != nil {
+			// m[k] under an antecedent that contains has(m, k): the stored value itself, without the
+			// `ite(has, value, zero)` of Go's map read (an ite inside a term keeps it from being a pattern)
+			k := x.assignConv(env.st, x.typed(idx, mt.Key()), mt.Key())
+			has, val := x.mapLoad(env.st, base, x.mapKeyTerm(k))
+			if env.guards[has.String()] {
+				return val
+			}
+		}
 		return x.indexValue(env.st, base, idx, nil)
 	case *ast.SliceExpr:
 		base := x.specGo(env, se, n.X)
